@@ -32,26 +32,59 @@ def snap_all(ex):
     return {a: X.InvariantObserver._snap_app(sh, a) for a in apps}
 
 
-def req_key(rq):
-    return (rq.remote, E.purpose_of(rq.remote, rq.purpose), rq.role == "create")
+def req_key(rq, pmul=1000):
+    """the queue a request belongs to: (remote node, purpose id, role) — computed from the scenario, not
+    from the executor's dictionaries"""
+    return (rq.remote, rq.remote * pmul + rq.purpose, rq.role == "create")
+
+
+class SocketPurposeStack(E.RecordingStack):
+    """network stack whose purpose id is `remote * pmul + socket id`; pmul = 0: the purpose id IS the
+    socket id, so requests towards different remote nodes can carry the same purpose id"""
+
+    def __init__(self, pmul):
+        super().__init__()
+        self.pmul = pmul
+
+    def get_purpose_id(self, remote_node_id, epr_socket_id):
+        if self.fail_next == "purpose":
+            return super().get_purpose_id(remote_node_id, epr_socket_id)
+        return remote_node_id * self.pmul + epr_socket_id
+
+
+def new_executor(pmul=1000):
+    ex = E.new_executor()
+    if pmul != 1000:
+        ex.network_stack = SocketPurposeStack(pmul)
+    return ex
+
+
+def retarget(sc, pmul):
+    """rewrite the purpose ids of the scenario's responses for a stack with multiplier `pmul`"""
+    if pmul != 1000:
+        for r in sc.resps:
+            r.purpose = r.remote * pmul + (r.purpose % 1000)
+    return sc
 
 
 class PoolReplayer(E.Replayer):
     """`Replayer` + link-layer reservation + the C13 oracle after every action."""
 
-    def __init__(self, sc, ex=None, reserve=True):
+    def __init__(self, sc, ex=None, reserve=True, pmul=1000):
         super().__init__(sc, ex)
+        self.pmul = pmul
         self.full = True
         self.reserve = reserve
         self.reserved = set()       # taken by the link layer, not yet mapped by any application
         self.delivered_keys = set()
         self.c13 = []               # violations of the C13 statement
+        self.obs_errors = []
         self.fresh_from = 50        # no-reserve mode: any id unused at delivery time; searched from here so
                                     # that a later qalloc (lowest unused id) cannot take the qubit of a parked pair
         self.owners = {}            # request key -> applications that issue a request on it
         for sp in sc.subs:
             for rq in sp.reqs:
-                self.owners.setdefault(req_key(rq), set()).add(sp.app)
+                self.owners.setdefault(req_key(rq, pmul), set()).add(sp.app)
 
     def bad(self, what, tok, **kw):
         self.c13.append(dict({"what": what, "step": len(self.steps), "tok": list(tok)}, **kw))
@@ -86,7 +119,13 @@ class PoolReplayer(E.Replayer):
                     p += 1
                 r.phys = p
             self.delivered_keys.add(r.key())
-        super().step(tok)
+        try:
+            super().step(tok)
+        except Exception as e:
+            # the C12 observation code could not read the executor's EPR bookkeeping (its shape changed):
+            # the action itself has been performed — the model-free C13 oracle below still runs
+            self.obs_errors.append("%s: %s" % (type(e).__name__, e))
+            self.steps.append({"tok": list(tok), "acts": [], "cacts": [], "obs_error": True})
         if len(self.steps) == n0:
             return                                             # token not enabled: nothing happened
         st = self.steps[-1]
@@ -109,7 +148,10 @@ class PoolReplayer(E.Replayer):
             rec["refused"] = type(e).__name__      # the model's life-cycle ops return a fault, no `raise`
         rec["full"] = E.dump_full(ex, sorted(self.sc.apps), self.addrs, list(self.sid.values()), ex._name)
         rec["fin"] = {self.sid[i]: st for i, st in self.state.items() if i in self.sid}
-        rec["obs"] = E.canon_real(ex, self.uid2idx, self.oracle.ident2uid)
+        try:
+            rec["obs"] = E.canon_real(ex, self.uid2idx, self.oracle.ident2uid)
+        except Exception as e:
+            self.obs_errors.append("%s: %s" % (type(e).__name__, e))
         self.steps.append(rec)
         if "refused" in rec and (snap_all(ex) != before or set(ex._used_physical_qubit_addresses) != used0):
             self.bad("a refused %s changed the executor state" % ("stop" if tok[0] == "x" else "registration"), tok)
@@ -163,21 +205,27 @@ class PoolReplayer(E.Replayer):
                 self.bad("a delivery / poll that raised %s changed the executor state" % st["raised"], tok)
 
 
-def run_case(sc, toks, driver, reserve=True):
+def run_case(sc, toks, driver, reserve=True, pmul=1000):
     """-> (replayer, controller-model difference or None)"""
-    rp = PoolReplayer(sc, E.new_executor(), reserve=reserve)
+    rp = PoolReplayer(retarget(sc, pmul), new_executor(pmul), reserve=reserve, pmul=pmul)
     for tok in toks:
         rp.step(tok)
         if rp.stopped:
             break
-    out = driver.call(E.ctl_request(rp))
-    dc = E.compare_with_ctl(out, rp) if "obs" in out else {"model": out}
+    req = E.ctl_request(rp)
+    req["pmul"] = pmul
+    out = driver.call(req)
+    if rp.obs_errors:
+        dc = {"what": "the executor's EPR bookkeeping could not be observed", "code": rp.obs_errors[0],
+              "model": "(model state available)"}
+    else:
+        dc = E.compare_with_ctl(out, rp) if "obs" in out else {"model": out}
     return rp, dc
 
 
-def fails(desc, toks, what, reserve=True):
+def fails(desc, toks, what, reserve=True, pmul=1000):
     toks = [tuple(t) for t in toks]
-    rp = PoolReplayer(E.Scenario.from_desc(copy.deepcopy(desc)), E.new_executor(), reserve=reserve)
+    rp = PoolReplayer(E.Scenario.from_desc(copy.deepcopy(desc)), new_executor(pmul), reserve=reserve, pmul=pmul)
     for tok in toks:
         rp.step(tok)
         if rp.stopped:
@@ -185,7 +233,7 @@ def fails(desc, toks, what, reserve=True):
     return any(v["what"] == what for v in rp.c13)
 
 
-def shrink_schedule(desc, toks, what, reserve=True):
+def shrink_schedule(desc, toks, what, reserve=True, pmul=1000):
     """drop schedule tokens while the same C13 violation is still reported"""
     cur = list(toks)
     i = len(cur) - 1
@@ -194,7 +242,7 @@ def shrink_schedule(desc, toks, what, reserve=True):
         c = cur[:i] + cur[i + 1:]
         budget -= 1
         try:
-            if fails(desc, c, what, reserve):
+            if fails(desc, c, what, reserve, pmul):
                 cur = c
         except Exception:
             pass
@@ -317,4 +365,36 @@ def parked_then_stop_scenario(pairs=1, other_app=True):
     if other_app:
         toks += [("s", 1)] * (len(sc.subs[1].lines) + 2)
     toks += [("x", 0), ("i", 0, pairs + 1)] + [("s", len(sc.subs) - 1)] * (len(again.lines) + 2)
+    return sc, toks
+
+
+def same_purpose_scenario(pairs=1, first="later"):
+    """Two applications with keep requests outstanding towards DIFFERENT remote nodes on the same socket
+    id; with a stack whose purpose id is the socket id (pmul = 0) both requests carry purpose 0.  A
+    delivery from remote node 2 may change only the application that asked node 2."""
+    rng = _rng()
+    sc = E.Scenario()
+    sc.apps = {0: pairs + 1, 1: pairs + 1}
+    for app, remote in ((0, 1), (1, 2)):
+        sp = E.SubProg(app, 0)
+        rq = E.Req("recv", "K", remote, 0, pairs, list(range(pairs)))
+        sp.reqs.append(rq)
+        sp.op_array(0, pairs)
+        for k in range(pairs):
+            sp.op_store(0, k, k)
+        sp.op_array(1, E.OK_FIELDS_K * pairs)
+        sp.op_recv(rq, 0, 1)
+        sp.op_wait("all", 1, 0, E.OK_FIELDS_K * pairs)
+        for k in range(pairs):
+            sp.op_qfree(k)
+        sc.subs.append(sp)
+    uid = 0
+    for remote in (1, 2):
+        for k in range(pairs):
+            sc.resps.append(E.RespSpec(uid, "K", remote, E.purpose_of(remote, 0), 1, 100 + uid, rng))
+            uid += 1
+    n0 = len(sc.subs[0].lines) - 2 * pairs
+    toks = [("s", 0)] * (n0 + 1) + [("s", 1)] * (n0 + 1)
+    order = list(range(pairs, 2 * pairs)) + list(range(pairs)) if first == "later" else list(range(2 * pairs))
+    toks += [("d", i) for i in order] + [("p",)] + [("s", 0), ("s", 1)] * (2 * pairs + 3)
     return sc, toks
